@@ -3,6 +3,7 @@ package props
 import (
 	"errors"
 	"fmt"
+	"io"
 	"sync"
 
 	"github.com/pion/stun/v3"
@@ -78,6 +79,12 @@ func c05Judge(c *core.Ctx, b []byte, what string, corruption bool) {
 			})
 		})
 		c.Count("checks_after_aborted_foreach", 1)
+	} else if h%5 == 1 {
+		// ... or a read that delivered nothing (an expired deadline, a closed pipe) since the message was decoded
+		errs := []error{io.EOF, io.ErrUnexpectedEOF, io.ErrClosedPipe, errors.New("i/o timeout")}
+		_, _ = m.ReadFrom(&scriptedReader{mode: 3 - int(h>>8)%2, data: nil})
+		_, _ = m.ReadFrom(failingReader{errs[int(h>>9)%len(errs)]})
+		c.Count("checks_after_failed_reads", 1)
 	}
 	before := viewOf(m)
 	var cerr error
@@ -114,6 +121,36 @@ func c05Judge(c *core.Ctx, b []byte, what string, corruption bool) {
 }
 
 // c05Make builds a library-fingerprinted message and checks the appended value.
+type failingReader struct{ err error }
+
+func (f failingReader) Read([]byte) (int, error) { return 0, f.err }
+
+// crcSolve returns the four bytes x such that CRC-32(prefix || x) == target.
+func crcSolve(prefix []byte, target uint32) [4]byte {
+	reg := ^uint32(0)
+	for _, b := range prefix {
+		reg ^= uint32(b)
+		for k := 0; k < 8; k++ {
+			if reg&1 == 1 {
+				reg = reg>>1 ^ 0xEDB88320
+			} else {
+				reg >>= 1
+			}
+		}
+	}
+	f := ^target
+	for k := 0; k < 32; k++ {
+		if f&0x80000000 != 0 {
+			f = (f^0xEDB88320)<<1 | 1
+		} else {
+			f <<= 1
+		}
+	}
+	x := reg ^ f
+
+	return [4]byte{byte(x), byte(x >> 8), byte(x >> 16), byte(x >> 24)}
+}
+
 func c05Make(c *core.Ctx, r *gen.Rand, maxVal int) []byte {
 	m := new(stun.Message)
 	setters := []stun.Setter{stun.NewType(stun.Method(r.Intn(0x1000)), stun.MessageClass(r.Intn(4))), stun.NewTransactionIDSetter(r.TID())}
@@ -415,6 +452,32 @@ func c05(c *core.Ctx) {
 			c05Judge(c, f, "maximum-size-bitflip", true)
 		}
 		c.Distinct(uint64(total) | 6<<50)
+	})
+	// (c3) messages whose CORRECT fingerprint is a remarkable number (all zeros, all ones, the XOR constant, the attribute's
+	// own header): four bytes in front are solved for, the value is what it is
+	c.Section("remarkable-correct-values", c.N(60, 20000), func(i int64, r *gen.Rand) {
+		target := []uint32{0x00000000, 0xFFFFFFFF, 0x5354554e, 0x80280004, 0x00000001, 0x2112A442}[int(i)%6]
+		spec := r.Spec(3, 24)
+		for k := range spec.Attrs {
+			if spec.Attrs[k].Type == 0x8028 {
+				spec.Attrs[k].Type = 0x8029 // the solved FINGERPRINT is the only (so the first) one
+			}
+		}
+		spec.Attrs = append(spec.Attrs, ref.Attr{Type: 0x8022, Value: make([]byte, 4+4*r.Intn(4))}, ref.Attr{Type: 0x8028, Value: []byte{byte(target >> 24), byte(target >> 16), byte(target >> 8), byte(target)}})
+		wire := spec.Wire()
+		pre := wire[:len(wire)-8]
+		x := crcSolve(pre[:len(pre)-4], target^0x5354554e)
+		copy(pre[len(pre)-4:], x[:])
+		if ref.FingerprintValue(pre) != target {
+			fatalHarness("C05: CRC solving is wrong")
+		}
+		c.Count("messages_with_solved_fingerprint", 1)
+		c.Distinct(gen.HashBytes(wire))
+		c05Judge(c, wire, fmt.Sprintf("correct-value-%08x", target), false)
+		m := new(stun.Message)
+		if err := stun.Decode(wire, m); err != nil || stun.Fingerprint.Check(m) != nil || m.Check(stun.Fingerprint) != nil {
+			c.Violate("check-verdict", fmt.Sprintf("check-verdict:correct-value-%08x", target), map[string]interface{}{"input_hex": core.Hex(wire), "problem": "a message whose fingerprint is the CRC prescribed by RFC 5389 is refused"})
+		}
 	})
 	// (c2) near misses of the value: bare CRC without the XOR, XOR with neighbouring constants, byte-swapped
 	c.Section("value-near-misses", c.N(300, 100000), func(_ int64, r *gen.Rand) {
